@@ -815,6 +815,15 @@ type failer interface {
 func check(t failer, c caseT, limit time.Duration) *runT {
 	hx.Journal(c)
 	var r *runT
+	t0 := time.Now() // statistics only, never an oracle
+	defer func() {
+		if d := time.Since(t0); d > 2*time.Second {
+			stats.Count("cases_slower_than_2s", 1)
+			if os.Getenv("C08_DEBUG") != "" {
+				fmt.Fprintf(os.Stderr, "slow case: %s\n", d)
+			}
+		}
+	}()
 	err, hung, panicked := hx.Guard(limit, func() error {
 		var e error
 		r, e = runCase(c)
